@@ -27,7 +27,7 @@ func init() {
 			case "race":
 				return 3000
 			}
-			return 5000
+			return 20000
 		},
 		Run:            c01Run,
 		Floor:          func(tier string) int { return 1000 },
